@@ -21,7 +21,7 @@ META = {
                   "extensions in both orders, hash dictionaries, references, observed-data and bundle members) on 7 base objects (incl. false-y custom values and 2.0 objects referring to 2.1-only types): strict parse "
                   "refuses, permissive parse accepts and has_custom is true exactly when a strict parse of the serialization is refused; unknown "
                   "types through parse (dict and text), MemoryStore and FileSystemStore with both switch settings.",
-    "level_text_more": "Also: false-y custom values ('', {}, false, 0), 2.0 objects referring to 2.1-only types, and custom properties given as null/[] (dropped, hence not custom content) at 9 sites alone or next to each injection. Registered toplevel-property extensions are not custom content through 9 routes (parse, markings, deepcopy, new_version, instance re-parse, bundle member, constructor from the finished object's values).",
+    "level_text_more": "Also: false-y custom values ('', {}, false, 0), 2.0 objects referring to 2.1-only types, and custom properties given as null/[] (dropped, hence not custom content) at 9 sites alone or next to each injection. Registered toplevel-property extensions are not custom content through 9 routes (parse, markings, deepcopy, new_version, instance re-parse, bundle member, constructor from the finished object's values). Rounds 5-6: 2.0 objects and embedded types with an 'extensions' member; custom content inside marking definitions; reserved member names at 16 sites; content carried by the properties of a registered toplevel extension; references given as object instances.",
     "level_note": "Whole-object flag equivalence is checked on the enumerated injection table only (selector-enumerated), not for all objects. "
                   "allow_custom forwarding to the parser at every store call site is the C14 forwarding obligation (shared).",
     "technique": "CrossHair symbolic execution of the real container cleaners with symbolic child flags (z3); solver-selected injection pairs through "
